@@ -13,6 +13,9 @@ pub mod c12;
 pub mod c13;
 pub mod c14;
 pub mod c15;
+pub mod c16;
+pub mod c17;
+pub mod c19;
 pub mod c20;
 
 use crate::report::Report;
@@ -59,6 +62,9 @@ pub fn run(id: &str, report: &mut Report, replay: Option<&str>) {
         "C13" => c13::run(report, replay_val.as_ref()),
         "C14" => c14::run(report, replay_val.as_ref()),
         "C15" => c15::run(report, replay_val.as_ref()),
+        "C16" => c16::run(report, replay_val.as_ref()),
+        "C17" => c17::run(report, replay_val.as_ref()),
+        "C19" => c19::run(report, replay_val.as_ref()),
         "C20" => c20::run(report, replay_val.as_ref()),
         _ => {
             eprintln!("unknown property {}", id);
